@@ -1072,3 +1072,19 @@ Proof.
   - intros H. destruct (Nat.leb s e') eqn:B1; [|reflexivity]. destruct (Nat.leb e' n) eqn:B2; [|reflexivity].
     apply Nat.leb_le in B1, B2. exfalso. apply H. lia.
 Qed.
+
+(* ---------------------------------------------------------------------------------- *)
+(* Which variables are variadic                                                        *)
+(* ---------------------------------------------------------------------------------- *)
+Theorem variadic_flags d :
+  (forall k, pvariadic d k = true <-> dvariadic d = true /\ S k = length (dparams d)) /\
+  (forall k, rvariadic d k = false) /\
+  (* with the flag off every flag-sensitive accessor is the type string / the name, unchanged *)
+  (forall v, param_method_arg v false = {| a_name := vname v; a_ell := false; a_ty := vrty v |} /\
+             param_type_string_ellipsis v false = {| a_name := []; a_ell := false; a_ty := vrty v |} /\
+             param_type_string_variadic_underlying v false = vrty v /\
+             param_call_name true v false = (vname v, false)).
+Proof.
+  split; [|split; [reflexivity | intros v; repeat split]].
+  intros k. unfold pvariadic, is_last. rewrite andb_true_iff, Nat.eqb_eq. reflexivity.
+Qed.
